@@ -226,6 +226,8 @@ func cleanPath(p, proto string) string {
 
 func (m *urlModule) fixURL(u *url.URL) {
 	u.Path = cleanPath(u.Path, u.Scheme)
+	// "host:" has no port: the colon is not part of the host
+	u.Host = strings.TrimSuffix(u.Host, ":")
 	if strings.HasPrefix(u.Host, "[") {
 		// an IP literal: only case is normalised; the brackets stay
 		u.Host = strings.ToLower(u.Host)
